@@ -1432,6 +1432,7 @@ func isHostValidator(h *ssa.Function) bool {
 // error exits.
 
 type pollSummary struct {
+	idIdx         int  // position of a uint16 parameter that is written back as the id (-1: none)
 	chanIdx, qIdx int  // positions of the reply channel and the caller's query among h.Params (-1: none)
 	restores      bool // every non-nil reply returned got Uint16(q) written at offset 0
 	pollsLast     bool // the last blocking or polling operation before every return is the non-blocking poll
@@ -1450,8 +1451,11 @@ func replyPollSummary(h *ssa.Function) *pollSummary {
 	if !isNewHelper(h) {
 		return nil
 	}
-	sum := &pollSummary{chanIdx: -1, qIdx: -1}
+	sum := &pollSummary{chanIdx: -1, qIdx: -1, idIdx: -1}
 	for i, prm := range h.Params {
+		if b, ok := prm.Type().Underlying().(*types.Basic); ok && b.Kind() == types.Uint16 {
+			sum.idIdx = i
+		}
 		if isReplyChanType(prm.Type()) {
 			if sum.chanIdx >= 0 {
 				return nil
@@ -1536,14 +1540,18 @@ func replyPollSummary(h *ssa.Function) *pollSummary {
 		restored := false
 		eachInstr(h, func(x ssa.Instruction) {
 			pc, ok := x.(*ssa.Call)
-			if !ok || callName(pc) != binPut16 || !instrDominates(pc, r) || sum.qIdx < 0 {
+			if !ok || callName(pc) != binPut16 || !instrDominates(pc, r) {
 				return
 			}
 			ld, ok := pc.Call.Args[1].(*ssa.UnOp)
 			if !ok || ld.Op != token.MUL || ld.X != rv[0] {
 				return
 			}
-			if id, ok := pc.Call.Args[2].(*ssa.Call); ok && callName(id) == binU16 && id.Call.Args[1] == ssa.Value(h.Params[sum.qIdx]) {
+			if id, ok := pc.Call.Args[2].(*ssa.Call); ok && sum.qIdx >= 0 && callName(id) == binU16 && id.Call.Args[1] == ssa.Value(h.Params[sum.qIdx]) {
+				restored = true
+			}
+			// ... or the id itself is handed in
+			if sum.idIdx >= 0 && pc.Call.Args[2] == ssa.Value(h.Params[sum.idIdx]) {
 				restored = true
 			}
 		})
@@ -1617,25 +1625,6 @@ func checkClaimedReplyDelivered(c *Ctx) {
 				}
 				n++
 				key := "claimed-reply-delivered@" + funcName(rl)
-				ch := st.Chan
-				// the branch that says "there is a waiter"
-				var nonNil []*ssa.BasicBlock
-				for _, r := range referrers(ch) {
-					bo, ok := r.(*ssa.BinOp)
-					if !ok || !isNilConst(bo.Y) || (bo.Op != token.EQL && bo.Op != token.NEQ) {
-						continue
-					}
-					for _, r2 := range referrers(bo) {
-						if iff, ok := r2.(*ssa.If); ok {
-							nonNil = append(nonNil, succOnTruth(iff, bo.Op == token.NEQ))
-						}
-					}
-				}
-				if len(nonNil) == 0 {
-					// no test at all: the select itself must dominate every exit reachable from where the channel is known
-					c.undecided(key, instrPos(in), "the reader hands over without testing whether there is a waiter")
-					continue
-				}
 				isRead := func(x ssa.Instruction) bool {
 					ci, ok := x.(*ssa.Call)
 					if !ok {
@@ -1648,12 +1637,112 @@ func checkClaimedReplyDelivered(c *Ctx) {
 					sc := staticCallee(ci)
 					return sc != nil && sc.Name() == "readResp"
 				}
-				bad := ""
-				for _, b := range nonNil {
-					if x, leaks := reachFromBlock(b, func(x ssa.Instruction) bool { return isReturn(x) || isRead(x) }, func(x ssa.Instruction) bool { return x == ssa.Instruction(sel) }); leaks {
-						bad = c.P.pos(instrPos(x))
+				// a guard that says "nobody waits for this reply" (no waiter registered, or the reply is not the awaited
+				// one), directly or through a named boolean built from the waiter test
+				var noWaiter func(cond ssa.Value, truth bool, depth int) bool
+				noWaiter = func(cond ssa.Value, truth bool, depth int) bool {
+					if depth > 3 {
+						return false
 					}
+					g := guard{Cond: cond, Truth: truth}
+					if cm, ok := g.asCmp(); ok && isNilConst(cm.Y) && isReplyChanType(cm.X.Type()) {
+						return cm.Op == token.EQL
+					}
+					// the reply's id is not the id the waiter waits for
+					if cm, ok := g.asCmp(); ok && cm.Op == token.NEQ {
+						for _, side := range []ssa.Value{cm.X, cm.Y} {
+							if k, isF := loadedField(side); isF && strings.HasSuffix(k, ".waitingQid") {
+								return true
+							}
+						}
+					}
+					if v, t := g.asBool(); v != nil && !t {
+						if ph, ok := v.(*ssa.Phi); ok {
+							// `expected := ch != nil && id == want`: false when either conjunct is false
+							for _, pp := range ph.Block().Preds {
+								if pif, ok := terminator(pp).(*ssa.If); ok {
+									if cm, ok := (guard{Cond: pif.Cond, Truth: true}).asCmp(); ok && isNilConst(cm.Y) && isReplyChanType(cm.X.Type()) {
+										return true
+									}
+								}
+							}
+						}
+					}
+					return false
 				}
+				readFailed := func(g guard) bool {
+					cm, ok := g.asCmp()
+					if !ok || cm.Op != token.NEQ || !isNilConst(cm.Y) || cm.X.Type().String() != "error" {
+						return false
+					}
+					// the error of a frame read itself (or the phi merging the errors of alternative reads)
+					fromRead := func(v ssa.Value) bool {
+						ex, ok := v.(*ssa.Extract)
+						if !ok {
+							return false
+						}
+						cl, ok := ex.Tuple.(*ssa.Call)
+						return ok && isRead(cl)
+					}
+					if fromRead(cm.X) {
+						return true
+					}
+					if ph, ok := cm.X.(*ssa.Phi); ok && len(ph.Edges) > 0 {
+						for _, e := range ph.Edges {
+							if !fromRead(e) {
+								return false
+							}
+						}
+						return true
+					}
+					return false
+				}
+				bad := ""
+				eachInstr(rl, func(rd ssa.Instruction) {
+					if !isRead(rd) {
+						return
+					}
+					// every exit (a return, or the way back to a read) reachable from this read without the hand-over is
+					// taken under "the read failed" or "nobody waits for this reply"; guards are those of the block the
+					// exit is taken from
+					type st struct {
+						b  *ssa.BasicBlock
+						ok bool
+					}
+					seenB := map[st]bool{}
+					var walk func(b *ssa.BasicBlock, idx int, ok bool)
+					walk = func(b *ssa.BasicBlock, idx int, ok bool) {
+						for i := idx; i < len(b.Instrs); i++ {
+							x := b.Instrs[i]
+							if x == ssa.Instruction(sel) {
+								return
+							}
+							if isRead(x) || isReturn(x) {
+								if !ok {
+									bad = c.P.pos(instrPos(x))
+								}
+								return
+							}
+						}
+						iff, isIf := terminator(b).(*ssa.If)
+						for si, sb := range b.Succs {
+							ok2 := ok
+							if isIf && b.Succs[0] != b.Succs[1] {
+								g := guard{Cond: iff.Cond, Truth: si == 0, If: iff}
+								if readFailed(g) || noWaiter(g.Cond, g.Truth, 0) {
+									ok2 = true
+								}
+							}
+							k := st{sb, ok2}
+							if seenB[k] {
+								continue
+							}
+							seenB[k] = true
+							walk(sb, 0, ok2)
+						}
+					}
+					walk(rd.Block(), idxInBlock(rd)+1, false)
+				})
 				c.check(bad == "", key, instrPos(in), "a reply whose waiter was taken is always handed over",
 					"after the reader took the waiter of the reply it read, it can leave or go on reading without handing the reply over (reaches "+bad+" without the send): the reply arrived in time but its caller gets the close error or a timeout")
 			}
